@@ -499,6 +499,8 @@ def connectFailed (s : PState) (h : String) (o : Outcome) : PState :=
   match getApp s h with
   | none => s
   | some app =>
+    -- the result of a superseded attempt (another attempt has decided the application's fate meanwhile) is ignored
+    if app.state != .unknown then s else
     let c := o.code
     let st : AState :=
       if Gen.Status.isDisconnect c false then .disconnected
@@ -515,6 +517,7 @@ def connectOk (s : PState) (h : String) (collector : String) (runId : String) (c
   match getApp s h with
   | none => s
   | some app =>
+    if app.state != .unknown then s else
     let s := setApp s h { app with state := .connected, collector := collector, reply := some cfg, runId := runId }
     setRun s runId { app := h, h := HarvestM.new cfg }
 
